@@ -360,8 +360,13 @@ func Run[S any](t *testing.T, sp Spec[S]) {
 		flag.Set("rapid.seed", s)
 	}
 	flag.Set("rapid.nofailfile", "true")
+	track := os.Getenv("VERIF_TRACK_CURRENT") != ""
 	rapid.Check(t, func(rt *rapid.T) {
 		s := sp.Gen(rt)
+		if track {
+			// a case that kills the process leaves its script behind as the reproducer
+			c.writeCurrent(s)
+		}
 		if v := sp.Exec(s); v != nil {
 			if c.Known(v.Sig) {
 				return
@@ -377,4 +382,16 @@ func JoinClasses(cl []string) string {
 	s := append([]string{}, cl...)
 	sort.Strings(s)
 	return strings.Join(s, ",")
+}
+
+func (c *Collector) writeCurrent(script any) {
+	b, err := json.Marshal(script)
+	if err != nil {
+		return
+	}
+	r := Replay{Property: c.Property, Check: c.Check, Seed: os.Getenv("VERIF_SEED"), RepoHead: os.Getenv("VERIF_REPO_HEAD"), Sig: "process-died", Msg: "the test process died while this case was running", Script: b}
+	dir := filepath.Join(outDir(), "current")
+	os.MkdirAll(dir, 0o755)
+	out, _ := json.Marshal(r)
+	os.WriteFile(filepath.Join(dir, fmt.Sprintf("%s.%d.json", c.Check, os.Getpid())), out, 0o644)
 }
